@@ -506,9 +506,53 @@ def number_grammar_cases():
     return out
 
 
+def blanks_and_escapes_cases():
+    """(a) std.parseJson: the four JSON white-space characters are accepted at every position between tokens, every other
+    blank / format / control character (Unicode white space that is not JSON white space) is rejected there, also after the
+    value; (b) surrogate escapes in every pairing: decoded, or an error - never a crash; (c) escapeStringJson / Python write
+    exactly the escapes of upstream's definition (short escapes, \\u%04x below U+0020 and for U+007F..U+009F, everything else raw)."""
+    out = []
+    J = jstr
+    json_ws = [" ", "\t", "\n", "\r", " \n\t\r "]
+    other = ["\u000b", "\u000c", "\u0085", "\u00a0", "\u1680", "\u2000", "\u2003", "\u200a", "\u2028", "\u2029", "\u202f", "\u205f", "\u3000",
+             "\ufeff", "\u200b", "\u0000", "\u001f", "\u007f", "\u001c"]
+    docs = [("%s1", 1), ("1%s", 1), ("[%s1, 2]", [1, 2]), ("[1%s, 2]", [1, 2]), ("[1,%s2]", [1, 2]), ("[1, 2%s]", [1, 2]), ("[1, 2]%s", [1, 2]),
+            ("{%s\"a\": 1}", {"a": 1}), ("{\"a\"%s: 1}", {"a": 1}), ("{\"a\":%s1}", {"a": 1}), ("{\"a\": 1%s}", {"a": 1}), ("{\"a\": 1}%s", {"a": 1}),
+            ("%snull", None), ("true%s", True), ("\"s\"%s", "s"), ("%s\"s\"", "s"), ("[]%s", []), ("{}%s", {})]
+    for tmpl, val in docs:
+        for w in json_ws:
+            out.append(("parseJson_json_whitespace", "std.parseJson(%s)" % J(tmpl % w), val))
+        for w in other:
+            out.append(("parseJson_other_blank_rejected", "std.parseJson(%s)" % J(tmpl % w), Err()))
+    hi, lo, bmp = ["\\ud83d", "\\uD800", "\\udbff"], ["\\ude00", "\\uDC00", "\\udfff"], ["\\u0041", "\\u00e9", "x", ""]
+    for a in hi + lo + bmp:
+        for b in hi + lo + bmp:
+            for c in ("", "\\udc00", "z"):
+                doc = '"' + a + b + c + '"'
+                out.append(("parseJson_surrogate_pairing", "std.parseJson(%s)" % J(doc), Any()))
+                out.append(("parseYaml_surrogate_pairing", "std.parseYaml(%s)" % J(doc), Any()))
+    def esc(s_):
+        o = ['"']
+        short = {'"': '\\"', "\\": "\\\\", "\b": "\\b", "\f": "\\f", "\n": "\\n", "\r": "\\r", "\t": "\\t"}
+        for ch in s_:
+            cp = ord(ch)
+            if ch in short:
+                o.append(short[ch])
+            elif cp < 0x20 or 0x7f <= cp <= 0x9f:
+                o.append("\\u%04x" % cp)
+            else:
+                o.append(ch)
+        return "".join(o) + '"'
+    for cp in list(range(0, 0xA2)) + [0xAD, 0x2028, 0x2029, 0xFEFF, 0xFFFD, 0xFFFF, 0x10000, 0x1F600]:
+        s_ = "a" + chr(cp) + "b"
+        out.append(("escapeStringJson_exact", "std.escapeStringJson(%s)" % J(s_), esc(s_)))
+        out.append(("escapeStringPython_exact", "std.escapeStringPython(%s)" % J(s_), esc(s_)))
+    return out
+
+
 def grid_shard(args):
     i, k = args
-    cases = (sign_grid_cases() + number_grammar_cases())[i::k]
+    cases = (sign_grid_cases() + number_grammar_cases() + blanks_and_escapes_cases())[i::k]
     agg = Agg()
     ev = Ev(agg)
     try:
@@ -546,7 +590,7 @@ def run(tier, seed):
         shards.append((seed * 29 + i, "codec", 500 * scale))
     for a in common.pmap(shard, shards):
         total.merge(a)
-    grid = sign_grid_cases() + number_grammar_cases()
+    grid = sign_grid_cases() + number_grammar_cases() + blanks_and_escapes_cases()
     total.count("grid_cases", len(grid))
     for a in common.pmap(grid_shard, [(i, 32) for i in range(32)]):
         total.merge(a)
@@ -559,6 +603,9 @@ def run(tier, seed):
             "inverted by json/ast/shlex; systematic grids: 29 prefixes (signs doubled/mixed, blanks, radix prefixes, look-alike "
             "characters) x 15 digit bodies x 10 suffixes for parseInt/Octal/Hex against the accepted syntax; the whole RFC 8259 number "
             "grammar (sign x integer part x fraction x e/E x exponent sign x exponent digits) alone, in arrays and objects: parseJson "
-            "correctly rounded, parseYaml == parseJson, non-JSON number texts rejected. distinct_nontrivial = distinct (family, source) pairs compared.")
+            "correctly rounded, parseYaml == parseJson, non-JSON number texts rejected; JSON white space accepted and 19 other blanks / "
+            "format characters rejected at every position between tokens and after the value; every pairing of high / low / non-surrogate "
+            "escapes (value or error, never a crash); escapeStringJson / escapeStringPython exactly as upstream defines them for every code "
+            "point up to U+00A1. distinct_nontrivial = distinct (family, source) pairs compared.")
     return common.finish(PROP, tier, seed, total, rule, t0,
                          assumptions=["Python hashlib/base64/codecs/shlex/ast are correct", "lone surrogate escapes are excluded from parseJson accept/reject comparison"])
